@@ -357,6 +357,9 @@ func init() {
 			extraViolations = nil
 			calls, pv := mixedRangeHoldersHistoryProbe()
 			v = append(v, pv...)
+			calls3, pv3 := failedListLookupProbe()
+			v = append(v, pv3...)
+			calls += calls3
 			return map[string]interface{}{"assignment_checks": "every assignment deep-copied before Retrieve and compared after", "fresh_index_comparisons": "every 10th step",
 				"mixed_range_holder_history_retrievals": calls}, v
 		},
@@ -450,6 +453,62 @@ func mixedRangeHoldersHistoryProbe() (calls int, viol []string) {
 				viol = append(viol, fmt.Sprintf("history-dependent answer (%s, stock range field next to one without float conversion): %q assigned to %s: %s, after the same text went to %s (%s): %s / %s; %s again: %s", kind, t, f1, o1, f2, o2, o3, o6, f2, o4))
 			}
 		}
+	}
+	return calls, viol
+}
+
+// failedListLookupProbe (Go side): a range field with kept intervals; a retrieval that FAILS half-way through an untyped
+// list -- a number that hits an interval followed by an element that is no number -- straight before ordinary
+// retrievals, which must answer what they answered before anything failed
+func failedListLookupProbe() (calls int, viol []string) {
+	age, tag := fieldName(2), fieldName(0)
+	for _, kind := range []string{"kgroups", "compact"} {
+		c := eCase{Kind: kind, Policy: "error"}
+		b := newBuilder(&c)
+		b.ConfigField(age, be.FieldOption{Container: be.HolderNameExtendRange})
+		mk := func(id int64, cj *be.Conjunction) {
+			d := be.NewDocument(be.DocID(id))
+			d.AddConjunction(cj)
+			b.AddDocument(d)
+		}
+		mk(1, be.NewConjunction().GreatThan(age, 10))
+		mk(2, be.NewConjunction().Between(age, 20, 400))
+		mk(3, be.NewConjunction().In(age, []int64{5}))
+		mk(4, be.NewConjunction().LessThan(age, 0).In(tag, 1))
+		mk(5, be.NewConjunction().In(tag, 1))
+		idx := b.BuildIndex()
+		answer := func(a be.Assignments) string {
+			var ids be.DocIDList
+			var err error
+			if safeCall(func() { ids, err = idx.Retrieve(a) }) {
+				return "panic"
+			}
+			calls++
+			if err != nil {
+				return "error"
+			}
+			l := append(be.DocIDList{}, ids...)
+			sort.Slice(l, func(i, j int) bool { return l[i] < l[j] })
+			return fmt.Sprint(l)
+		}
+		probes := []be.Assignments{{age: 5}, {age: 15}, {age: 500}, {age: -3, tag: 1}, {tag: 1}, {}, {age: []int64{5, 7}}}
+		base := make([]string, len(probes))
+		for i, p := range probes {
+			base[i] = answer(p)
+		}
+		for _, bad := range []interface{}{[]interface{}{15, "oops"}, []interface{}{300, 15, true}, []interface{}{-3, "x"}, []interface{}{15, nil, 7}} {
+			for i, p := range probes {
+				if r := answer(be.Assignments{age: bad, tag: 1}); r == "panic" {
+					viol = append(viol, fmt.Sprintf("%s: Retrieve panicked on age=%v", kind, bad))
+				}
+				if got := answer(p); got != base[i] {
+					viol = append(viol, fmt.Sprintf("history-dependent answer (%s, range field): %v answers %s straight after the failed retrieval age=%v, %s before it", kind, p, got, bad, base[i]))
+				}
+			}
+		}
+	}
+	if len(viol) > 4 {
+		viol = viol[:4]
 	}
 	return calls, viol
 }
